@@ -155,7 +155,7 @@ func vRunSession[T comparable, C any](ops vSigOps[T, C], out *vOut, caps []bool,
 	cons := make([]C, n)
 	for i := 0; i < n; i++ {
 		i := i
-		cons[i] = ops.mkCons(caps[i], func(_ context.Context, p T) error {
+		cons[i] = ops.mkCons(vOptsFor(caps[i], i, n), func(_ context.Context, p T) error {
 			d := dels[stack[len(stack)-1]]
 			script = append(script, fmt.Sprintf("WStep %d %s", d.idx, vCallTerm))
 			d.called[i]++
